@@ -112,6 +112,10 @@ class State(object):
         s.trace = self.trace
         s.ghost = dict(self.ghost)
         s.dead = False
+        if hasattr(self, 'inv_tags'):
+            s.inv_tags = self.inv_tags
+        if hasattr(self, 'entry'):
+            s.entry = self.entry
         return s
 
     def assume(self, *conds):
@@ -168,12 +172,29 @@ class State(object):
             return
         if ty.is_reflike:
             self.assume(z3.And(v.t > 0, v.t < self.alloc))
+            self.assume(self.tag_fact(v))
         elif ty.kind == 'float' and FLOAT_MODE[0] == 'xreal':
             from .ops import xr_wf
             self.assume(xr_wf(v.t))
         elif ty.kind == 'tup' and v.items:
             for x in v.items:
                 self.assume_wf(x)
+
+    def tag_fact(self, v):
+        """dynamic type tag of a reference: objects of unrelated static types are distinct objects"""
+        self.H('tyof', arr(z3.IntSort(), z3.IntSort()))
+        t = z3.Select(self.heap['tyof'], v.t)
+        if v.ty.kind == 'ref':
+            c = v.ty.args[0]
+            subs = [x for x in self.ctab.repo.classes if self.ctab.is_subclass(x, c)]
+            if c not in subs:
+                subs.append(c)
+            return z3.Or(*[t == cls_tag(Ref(x)) for x in subs])
+        return t == cls_tag(v.ty)
+
+    def set_tag(self, v):
+        self.H('tyof', arr(z3.IntSort(), z3.IntSort()))
+        self.heap['tyof'] = z3.Store(self.heap['tyof'], v.t, z3.IntVal(cls_tag(v.ty)))
 
     # ---- lists -----------------------------------------------------------------------------
     def _len_arr(self):
@@ -213,7 +234,14 @@ class State(object):
     def list_append(self, lst, sv):
         ety = lst.ty.args[0]
         n = self.list_len(lst)
-        self.list_set_elems(lst, z3.Store(self.list_elems(lst), n, pack(sv, ety)), n + 1)
+        old = self.list_elems(lst)
+        # the new element array is a named constant (equal to the Store term): `new[n]` is then a
+        # ground term that survives simplification and serves as a quantifier trigger
+        new = z3.Const(fresh_name('app'), old.sort())
+        j = z3.Int(fresh_name('j'))
+        self.assume(new == z3.Store(old, n, pack(sv, ety)), z3.Select(new, n) == pack(sv, ety),
+                    forall([j], z3.Implies(j != n, z3.Select(new, j) == z3.Select(old, j)), patterns=[z3.Select(old, j)]))
+        self.list_set_elems(lst, new, n + 1)
 
     def new_ref(self):
         r = self.alloc
@@ -228,6 +256,7 @@ class State(object):
         for i, x in enumerate(items):
             a = z3.Store(a, z3.IntVal(i), pack(x, elem_ty))
         self.list_set_elems(lst, a, z3.IntVal(len(items)))
+        self.set_tag(lst)
         return lst
 
     def new_list_sym(self, elem_ty, n, elems_arr=None):
@@ -238,6 +267,7 @@ class State(object):
         if elems_arr is None:
             elems_arr = z3.Const(fresh_name('elems'), arr(z3.IntSort(), sort_of(elem_ty)))
         self.list_set_elems(lst, elems_arr, n)
+        self.set_tag(lst)
         return lst
 
     # ---- dicts -----------------------------------------------------------------------------
@@ -277,8 +307,9 @@ class State(object):
         """ghost list of the keys in insertion order"""
         kty, vty = self.dict_types(d)
         r = z3.Select(self.heap[self._dk()], d.t)
-        self.assume(z3.And(r > 0, r < self.alloc))
-        return SV(List(kty), r)
+        kl = SV(List(kty), r)
+        self.assume(z3.And(r > 0, r < self.alloc), self.tag_fact(kl))
+        return kl
 
     def dict_set(self, d, key, val):
         kty, vty = self.dict_types(d)
@@ -298,6 +329,7 @@ class State(object):
     def new_dict(self, kty, vty, cls=None):
         r = self.new_ref()
         d = SV(Dict(kty, vty) if cls is None else Ref(cls), r)
+        self.set_tag(d)
         dh = self._dh(kty)
         self._dv(kty, vty)
         self.heap[dh] = z3.Store(self.heap[dh], r, z3.K(sort_of(kty), z3.BoolVal(False)))
